@@ -318,6 +318,9 @@ type (
 	CastInt64  int64
 	CastFloat  float32
 	Duration   int64
+	// not the configured duration type: the names only end / start like it
+	BillingDuration int64
+	DurationSeconds int64
 	CustomA    struct{ V string }
 	CustomB    bool
 	Custom_C   struct{ V string }
